@@ -25,7 +25,11 @@ def setup(ck, san='asan'):
 def line_alphabet(LIB):
     return [LIB, LIB + b' ', LIB + b'\t', LIB + b' # c', LIB + b'#c', LIB + b' /usr/lib/libfoo.so', b'/usr/lib/libfoo.so ' + LIB, b'/usr/lib/libfoo.so',
             b'/opt/other/libsnoopy.so', LIB + b'x', b'/pre' + LIB, b'# c', b'# ' + LIB, b'# libsnoopy.so libsnoopy.so', b'', LIB + b'\r',
-            LIB + b'.2', b'libsnoopy.so', b'# 5% of %s %d %20p', LIB + b'\t/usr/lib/libbar.so # c']
+            LIB + b'.2', b'libsnoopy.so', b'# 5% of %s %d %20p', LIB + b'\t/usr/lib/libbar.so # c',
+            # a comment line longer than any fixed look-back window, mentioning the library near its end
+            b'# ' + b'x' * 3000 + b' libsnoopy.so',
+            # own entry sharing its line with another (foreign) snoopy instance
+            LIB + b' /opt/other/libsnoopy.so']
 
 
 def files(LIB, maxlines, extra=True):
